@@ -307,6 +307,8 @@ impl ForwardedStreamSink {
 
         if (100..200).contains(&response.status.as_u16()) {
             state.respond.send_intermediate_response(response)?;
+            // what follows the interim response can be processed right away
+            self.fake_unsent = !tail.is_empty();
             return Ok(tail);
         }
 
